@@ -8,6 +8,8 @@
 //! count for the function they are written in, nested `fn` items get their own row
 //! `outer::inner` – the sites are counted by kind:
 //!
+//! * `slicefn` – `.split_at(..)`, `.split_off(..)`, `.swap_remove(..)`, `.copy_from_slice(..)`, `.drain(..)`, `.windows(..)`,
+//!   `.chunks(..)`, `.step_by(..)`, … (`SLICE_FNS`): methods that panic on a bad position or length,
 //! * `index`  – `x[i]`, `x[a..b]` (`ExprIndex`; the full range `x[..]` cannot panic and is left out),
 //! * `unwrap` – `.unwrap()` / `.unwrap_err()`,
 //! * `expect` – `.expect(..)` / `.expect_err(..)`,
@@ -34,7 +36,14 @@ use syn::punctuated::Punctuated;
 use syn::visit::Visit;
 use crate::util::*;
 
-pub const KINDS: &[&str] = &["index", "unwrap", "expect", "panic", "div", "shift", "exit"];
+pub const KINDS: &[&str] = &["index", "unwrap", "expect", "panic", "div", "shift", "exit", "slicefn"];
+
+/// Methods of slices / strings / vectors that panic on a bad position or length (`slicefn`): an index in disguise.
+/// (`remove` / `insert` are left out: the same names on maps never panic.)
+pub const SLICE_FNS: &[&str] = &[
+    "split_at", "split_at_mut", "split_off", "swap_remove", "copy_from_slice", "clone_from_slice", "drain", "rotate_left",
+    "rotate_right", "chunks", "chunks_exact", "windows", "step_by",
+];
 
 fn out_of_scope(rel: &str) -> bool {
     let base = rel.rsplit('/').next().unwrap_or(rel);
@@ -160,6 +169,8 @@ impl V {
                         self.hit("unwrap", id.span());
                     } else if prev_dot && next_call && (n == "expect" || n == "expect_err") {
                         self.hit("expect", id.span());
+                    } else if prev_dot && next_call && SLICE_FNS.contains(&n.as_str()) {
+                        self.hit("slicefn", id.span());
                     } else if next_call && prev_process && (n == "exit" || n == "abort") {
                         self.hit("exit", id.span());
                     }
@@ -326,6 +337,8 @@ impl<'ast> Visit<'ast> for V {
                     self.hit("unwrap", m.method.span());
                 } else if (n == "expect" || n == "expect_err") && m.args.len() == 1 {
                     self.hit("expect", m.method.span());
+                } else if SLICE_FNS.contains(&n.as_str()) {
+                    self.hit("slicefn", m.method.span());
                 }
             }
             syn::Expr::Binary(b) => {
